@@ -225,3 +225,39 @@ Definition check_kern_pitch (c : string * Z * Z * Z * Z) : bool :=
   | Some (st, o) => (st =? step) && (o =? oct) && (match kern_alter acc with Some a => a =? alter | None => alter =? 0 end)
   | None => false
   end.
+
+(* ---------------------------------------------------------------- part 4: export -> load *)
+
+(* partitura/io/importmei.py _handle_note / _handle_chord: the staff of a loaded note is its own @staff, else the
+   @staff of the chord it is a member of, else n of the enclosing <staff> element (passed down through layer,
+   beam, tuplet) *)
+Definition imp_staff (note_attr chord_attr : option Z) (enclosing : Z) : Z :=
+  match note_attr with
+  | Some s => s
+  | None => match chord_attr with Some c => c | None => enclosing end
+  end.
+
+(* one exported note: (note@staff, chord@staff, n of the enclosing staff) as read from the exported file by the
+   harness, the staff load_mei gave it, the staff it has in the part *)
+Definition check_xstaff (c : option Z * option Z * Z * Z * Z) : bool :=
+  let '(na, ca, en, loaded, orig) := c in (imp_staff na ca en =? loaded) && (loaded =? orig).
+
+(* position from order: both loaders place every element of a layer / spine where the previous one ends *)
+Fixpoint onsets_from_durs (t : Q) (ds : list Q) : list Q :=
+  match ds with [] => [] | d :: r => t :: onsets_from_durs (t + d)%Q r end.
+
+(* rows (onset, duration) of one voice within a measure starting at t: every element starts where the previous ends *)
+Fixpoint gapless (t : Q) (rows : list (Q * Q)) : bool :=
+  match rows with
+  | [] => true
+  | (o, d) :: r => Qeq_bool o t && gapless (o + d)%Q r
+  end.
+
+(* one voice of an exported part after reload: (staff index, layer index) of the abstract part, the divisions of the
+   reloaded score, the reloaded notes of that voice (onset, duration, ticks; chords once) in time order *)
+Definition check_xvoice (mei : bool) (ms : list measure) (v : nat * nat * Z * list (Q * Q * Z)) : bool :=
+  let '(s, l, divs, obs) := v in
+  all2 (obs_ok divs mei) (filter (fun r => sounding (snd r)) (denote_layer s l 0 ms)) obs.
+
+Definition check_xdoc (mei : bool) (ms : list measure) (vs : list (nat * nat * Z * list (Q * Q * Z))) : bool :=
+  forallb (check_xvoice mei ms) vs.
